@@ -7,7 +7,7 @@ from .state import State, dtype, key_alloc, key_card
 I = z3.IntSort()
 
 PURE_BUILTINS = {'repr', 'len', 'range', 'isinstance', 'int', 'str', 'bool', 'min', 'max', 'abs', 'all', 'any', 'divmod', 'tuple',
-                 'old', 'implies', 'fresh', 'seq', 'dom', 'unchanged', 'type', 'iff', 'card', 'content', 'ite', 'is_none', 'val', 'prefix', 'cast', 'upd', 'elements', 'elements_if', 'dom'}
+                 'old', 'implies', 'fresh', 'seq', 'dom', 'unchanged', 'type', 'iff', 'card', 'content', 'ite', 'is_none', 'val', 'prefix', 'cast', 'upd', 'elements', 'elements_if', 'dom', 'mapattr', 'content'}
 STR_METHODS = {'isupper': BOOL, 'islower': BOOL, 'upper': STR, 'lower': STR, 'startswith': BOOL, 'endswith': BOOL,
                'count': INT, 'isidentifier': BOOL, 'isdigit': BOOL, 'strip': STR, 'lstrip': STR, 'rstrip': STR,
                'encode': STR, 'decode': STR, 'find': INT, 'isalnum': BOOL, 'isalpha': BOOL, 'replace': STR, 'join': STR}
@@ -132,7 +132,9 @@ class CallMixin:
         if k == 'opt':
             self.check(st, z3.Not(opt_is_none(v)), 'TypeError', 'none', node)
             return self.length(opt_val(v), st, node)
-        if k == 'list': return st.llen(v.z)
+        if k == 'list':
+            st.assume(st.llen(v.z) >= 0)
+            return st.llen(v.z)
         if k == 'str': return z3.Length(v.z)
         if k == 'text': return self.text_len(v.z)
         if k == 'tuple': return z3.IntVal(len(v.ty.args))
@@ -408,6 +410,17 @@ class CallMixin:
         d = self.ev1(e.args[0], st)
         yield SV(Ty('fmap', d.ty.args[0], d.ty.args[1]), st.dval(d.z, sort_of(d.ty.args[0]), sort_of(d.ty.args[1]))), st
 
+    def bi_mapattr(self, e, st):
+        """mapattr(xs, 'f'): the sequence xs[0].f, xs[1].f, ... (spec only; e.g. the child lists of a list of trees in a modifies clause)"""
+        xs = self.seq_of(self.ev1(e.args[0], st), st)
+        attr = e.args[1].value
+        i = fresh('i_ma', I)
+        s2 = st.copy()
+        v = list(self.getattr(SV(xs.elem, z3.Select(xs.arr, i)), attr, s2, e))[0][0]
+        arr = fresh('mapattr', z3.ArraySort(I, sort_of(v.ty)))
+        st.assume(z3.ForAll([i], z3.Implies(z3.And(0 <= i, i < xs.n), arr[i] == v.z), patterns=[arr[i], z3.Select(xs.arr, i)]))
+        yield SeqV(v.ty, arr, xs.n), st
+
     def bi_is_none(self, e, st):
         v = self.ev1(e.args[0], st)
         yield SV(BOOL, self.equal(v, SV(NONE, NONEV), st)), st
@@ -617,9 +630,18 @@ class CallMixin:
             self.list_extend(recv, v, s, e)
             yield SV(NONE, NONEV), s
 
+    def seq_cast(self, sq, elem, st):
+        """the same sequence viewed at another element type (e.g. [None] * n added to a list of anything)"""
+        if sort_of(sq.elem) == sort_of(elem):
+            return SeqV(elem, sq.arr, sq.n)
+        arr = fresh('cast', z3.ArraySort(I, sort_of(elem)))
+        i = z3.Int('i!cs')
+        st.assume(z3.ForAll([i], z3.Implies(z3.And(0 <= i, i < sq.n), arr[i] == self.coerce(SV(sq.elem, z3.Select(sq.arr, i)), elem, st).z), patterns=[arr[i]]))
+        return SeqV(elem, arr, sq.n)
+
     def list_extend(self, recv, v, st, node):
         self.check_write(st, recv.z, node, 'extend')
-        res = self.seq_concat(st.list_seq(recv), self.seq_of(v, st), st)
+        res = self.seq_concat(st.list_seq(recv), self.seq_cast(self.seq_of(v, st), recv.ty.args[0], st), st)
         st.lset(recv.z, sort_of(recv.ty.args[0]), res.arr, res.n)
 
     def m_list_copy(self, recv, e, st):
